@@ -10,6 +10,15 @@ claimed = {
  "C19": dict(
    text="Deductive proof over all 2^32 / 2^16 / 2^8 flag words and all byte values: each of the 53 accessors returns exactly the TS 29.244 bit (tables 8.2.19, 8.2.41, 8.2.26 transcribed as (octet, bit) pairs in the contract generator, not taken from the code's constants), Unmarshal widens 2/3-octet (1/2-octet) input little-end first and errs iff too short, IE() hands the three octets to the go-pfcp constructor in order, SetReportingTrigger maps each single cause to the same-named usage-report bit and changes nothing otherwise, SetFlags sets exactly the volume (and packet) flag bits.",
    note="go-pfcp constructors ie.NewReportingTriggers / ie.NewUsageReportTrigger are the extern boundary (their arguments are specified, their encoding is not verified); REEMR has no same-named usage-report trigger and is specified as 'no change'; inputs longer than the permitted IE lengths are outside the claim." + COMMON),
+ "C01": dict(
+   text="Deductive proof over a ghost model of the data plane (sets DP / CREATED of (seid, kind, id) keys that only the forwarder.Driver interface contracts may change): every Sess rule method (Create/Update/Remove of PDR, FAR, QER, URR, BAR), Sess.Close, LocalNode/RemoteNode.DeleteSess, RemoteNode.Reset and the Session Deletion and Association Setup handlers preserve 'every key in DP belongs to a live session and is recorded in that session's own id maps', call Update/Remove/Query only for ids the session recorded, and withdraw every key of an ending session (Close calls Remove for each recorded id whatever earlier calls returned). Proved for all inputs, map contents and numbers of sessions.",
+   note="Proved up to the Driver interface: Gtp5g's translation of these calls to netlink is a separate property (C02/C03). Session Establishment/Modification and Session Report Response handlers are not under contract yet, so 'requested by a Create IE' is proved at the Sess method level (the id recorded and installed is the one decoded from the IE passed in), and the SEID-0 report-response path is not covered. go-pfcp IE accessors are assumed deterministic (A-IEPURE)." + COMMON),
+ "C04": dict(
+   text="Deductive proof, for every 64-bit SEID value and every table size, of LocalNode.NewSess/Sess/DeleteSess/RemoteSess and their RemoteNode wrappers against a representation invariant (slot i holds the session with LocalID i+1 or nil; the free list holds exactly distinct released slot numbers): NewSess returns a non-zero SEID whose slot was empty (so no live session holds it) and is re-issued only from the free list, i.e. after DeleteSess removed the previous holder; Sess/DeleteSess resolve a SEID to exactly sess[seid-1] and return an error without any heap or data-plane effect for 0, out-of-range (including values whose int conversion wraps) and released SEIDs; the Session Deletion handler answers cause 'session context not found' with SEID 0 in exactly that case.",
+   note="The quick check found and the repository now carries two fixes here (int(lSeid)-1 wrap-around for SEIDs >= 2^63; nil slot dereference in RemoteSess). Establishment/Modification handlers not under contract yet." + COMMON),
+ "C05": dict(
+   text="Deductive frame proofs: each Sess rule method, Close, DeleteSess and the Session Deletion handler carry a machine-checked modifies clause naming only the addressed session's maps, queues and URR records plus the ghost data plane, an 'isol' postcondition (keys of every other SEID are in DP after iff before) and a 'frameok' postcondition (every other session's well-formedness predicate is preserved); every Driver call is required at the call site to carry s.LocalID. RemoteNode.Reset and the Association Setup handler are proved to remove exactly the sessions registered under the re-associating node and to leave every other live slot identical. Separation between sessions is derived from ghost ownership of their maps fixed at allocation in NewSess.",
+   note="The Session Report Response SEID-0 path and UpdateNodeID are not under contract yet and are outside this claim. Buffered packets are covered through the queue maps of Sess (frame over chans(s.q))." + COMMON),
 }
 props = [json.loads(l) for l in open('/verif/properties.jsonl')]
 checks, na = [], []
